@@ -35,6 +35,10 @@ class PyRaise(Exception):
         self.node = node
 
 
+class TextOpaque(AnalysisError):
+    """an operation that needs the characters of a text the model keeps abstract (the decimal text of a symbolic number)"""
+
+
 class Sym:
     def __init__(self, name, kind):
         self.name, self.kind = name, kind
@@ -200,6 +204,8 @@ def okey(v):
 def exc_name_of(e):
     if isinstance(e, PyRaise):
         return e.name
+    if getattr(e, "resolved", None):
+        return e.resolved
     exc = e.node.exc
     if exc is None:
         return None
@@ -381,8 +387,14 @@ class ObjEvaluator(Evaluator):
                 parts.append(v.value)
             elif isinstance(v, ast.FormattedValue) and v.format_spec is None and v.conversion in (-1, 115):
                 parts.append(self.to_text(self.eval(v.value, env), node))
+            elif isinstance(v, ast.FormattedValue):
+                # {x!r}, {x:.3f}: the text depends on the value in a way the model does not follow: a text of its own
+                x_ = self.eval(v.value, env)
+                t_ = self.to_text(x_, node)
+                parts.append(t_ if isinstance(t_, str) and v.format_spec is None and v.conversion == 114 and False
+                             else Sym("format(%s)" % ast.unparse(v)[:60], "text"))
             else:
-                raise AnalysisError("E7: formatted value with a format specification (line %d)" % node.lineno)
+                raise AnalysisError("E7: formatted value of unknown form (line %d)" % node.lineno)
         return SStr(parts).simplify()
 
     def e_Attribute(self, node, env):
@@ -838,6 +850,13 @@ class ObjEvaluator(Evaluator):
                 env[p] = self.eval_default(a.defaults[j])
         if a.vararg:
             env[a.vararg.arg] = tuple(allargs[len(params):])
+        for k_, d_ in zip(a.kwonlyargs, a.kw_defaults):
+            if k_.arg in extra:
+                env[k_.arg] = extra.pop(k_.arg)
+            elif d_ is not None:
+                env[k_.arg] = self.eval_default(d_)
+            else:
+                raise PyRaise("TypeError", node, "missing keyword-only argument %s of %s" % (k_.arg, fn.name))
         if a.kwarg:
             env[a.kwarg.arg] = extra
         elif extra:
@@ -890,7 +909,13 @@ class ObjEvaluator(Evaluator):
             return Sym("str(%s)" % v.name, "word")
         if v is None or isinstance(v, bool):
             return str(v)
-        raise AnalysisError("E7: text of %r (line %d)" % (v, getattr(node, "lineno", 0)))
+        # the display text of any other value (an array, a tuple, an expression: what a message shows): a text of its own
+        from .symeval import vkey as _vkey
+        try:
+            k_ = _vkey(v)
+        except Exception:
+            k_ = type(v).__name__
+        return Sym("str(%s)" % k_[:80], "text")
 
     def format_percent(self, fmt, vals, node):
         parts, i, k = [], 0, 0
@@ -1124,6 +1149,10 @@ class ObjEvaluator(Evaluator):
             return t.simplify() if isinstance(t, SStr) else t
         if name == "type" and len(args) == 1:
             return ("typeobj", self.type_of(args[0]))
+        if name == "isinstance" and len(args) == 2 and not isinstance(args[0], (Sym, SStr, Obj)):
+            r_ = self.isinstance_test(args[0], args[1], node)
+            if r_ is not NotImplemented:
+                return r_
         if name == "isinstance" and len(args) == 2:
             is_type = lambda t_: isinstance(t_, tuple) and len(t_) == 2 and t_[0] in ("builtin", "type", "typeobj") and isinstance(t_[1], str)
             types = (args[1],) if is_type(args[1]) else (args[1] if isinstance(args[1], tuple) else (args[1],))
@@ -1392,8 +1421,31 @@ class ObjEvaluator(Evaluator):
                         out.append(base)
                     out.append(x if isinstance(x, (str, SStr, Sym)) else self.to_text(x, node))
                 return SStr(out).simplify()
+            if attr == "format" and isinstance(base, str):
+                import string as _string
+                out_, auto_ = [], 0
+                try:
+                    for lit_, field_, spec_, conv_ in _string.Formatter().parse(base):
+                        if lit_:
+                            out_.append(lit_)
+                        if field_ is None:
+                            continue
+                        head_ = field_.split(".")[0].split("[")[0]
+                        if head_ == "":
+                            val_ = args[auto_]; auto_ += 1
+                        elif head_.isdigit():
+                            val_ = args[int(head_)]
+                        else:
+                            val_ = kwargs[head_]
+                        if spec_ or conv_ or head_ != field_:
+                            out_.append(Sym("format(%s)" % field_[:40], "text"))
+                        else:
+                            out_.append(self.to_text(val_, node))
+                except (IndexError, KeyError, ValueError):
+                    raise PyRaise("IndexError", node, "str.format: missing argument")
+                return SStr(out_).simplify()
             if attr == "format":
-                raise AnalysisError("E7: str.format (line %d)" % node.lineno)
+                return Sym("format(...)", "text")
         if isinstance(base, tuple) and len(base) == 2 and base[0] == "regex":
             import re as _re
             if attr == "sub" and len(args) == 2 and isinstance(args[0], str):
@@ -1406,7 +1458,7 @@ class ObjEvaluator(Evaluator):
                 return _re.split(base[1], args[0])
             if args and all(isinstance(a_, str) for a_ in args):
                 return Evaluator.method_call(self, base, attr, args, kwargs, node)
-            raise AnalysisError("E7: regular-expression method %s on text that is not constant (line %d)" % (attr, node.lineno))
+            raise TextOpaque("E7: regular-expression method %s on text that is not constant (line %d)" % (attr, node.lineno))
         if isinstance(base, tuple) and len(base) == 2 and base[0] == "rematch":
             return Evaluator.method_call(self, base, attr, args, kwargs, node)
         r = Evaluator.method_call(self, base, attr, args, kwargs, node)
@@ -1415,6 +1467,18 @@ class ObjEvaluator(Evaluator):
             raise AnalysisError("E7: method `%s` of a %s is not modelled (line %d)"
                                 % (attr, "text" if isinstance(base, (str, SStr, Sym)) else type(base).__name__, node.lineno))
         return r
+
+    def stdlib_call(self, name, args, kwargs, node):
+        if name in ("logging.getLogger",) or name.endswith(".get_module_level_logger"):
+            # a logger: every method records the call and returns None (messages are no part of any value)
+            o = self.new_obj("logger")
+            for lv_ in ("debug", "info", "warning", "warn", "error", "critical", "exception", "log", "setLevel", "addHandler", "isEnabledFor"):
+                o.pymethods[lv_] = (lambda *a_, _lv=lv_, **k_: (self.log_calls.append((_lv, a_)), None)[1])
+            return o
+        if name == "warnings.warn":
+            self.log_calls.append(("warnings.warn", tuple(args)))
+            return None
+        return Evaluator.stdlib_call(self, name, args, kwargs, node)
 
     def opaque_call(self, name, args, kwargs, node):
         if name == "re.compile" and args and isinstance(args[0], str):
@@ -1425,6 +1489,8 @@ class ObjEvaluator(Evaluator):
             return SStr([_re.sub(args[0], args[1], p_) if isinstance(p_, str) else p_ for p_ in s_.parts]).simplify()
         if getattr(self, "allow_opaque_calls", False) or name in getattr(self.mod, "functions", {}):
             return Evaluator.opaque_call(self, name, args, kwargs, node)
+        if name.startswith("re.") and any(isinstance(a_, (SStr, Sym, Text, Field)) for a_ in args):
+            raise TextOpaque("E7: `%s` looks at the characters of a text that is abstract here (line %d)" % (name, getattr(node, "lineno", 0)))
         raise AnalysisError("E7: call of `%s` is not modelled (line %d)" % (name, getattr(node, "lineno", 0)))
 
 
